@@ -478,6 +478,11 @@ def gen_code_url():
     return pytrans.gen_code_url()
 
 
+def gen_code_cfgparser():
+    from . import pytrans
+    return pytrans.gen_code_cfgparser()
+
+
 GENERATORS = {
     "Schema": gen_schema,
     "Logger": gen_logger,
@@ -490,6 +495,7 @@ GENERATORS = {
     "CodeSubstitution": gen_code_substitution,
     "CodeCmdline": gen_code_cmdline,
     "CodeUrl": gen_code_url,
+    "CodeCfgparser": gen_code_cfgparser,
 }
 
 
